@@ -358,6 +358,11 @@ def check(run):
                     'harness stubs (SimpleNamespace/Fraction) and render monitor (Python)']
     run.assumptions += ['vertical stacking/collapsing through the tree is tied by the Frag2 correspondence (C01/C03 streams), not re-proved here',
                         'handle_min_max_width is modelled by hand (with_min_max) around the regenerated body and tied by stream blw-minmax-direct',
+                        'handle_min_max_width / handle_min_max_height: the inner wrapper is regenerated (gen/GenMinMax.v) and proved equal to '
+                        'model/C05MinMaxWrap.v for every decorated function; the decorated function is an oracle of the state of box and of the '
+                        'tuple of the other arguments, which it may both mutate (value semantics: box is not one of the other arguments, and the '
+                        'function keeps no other state between the calls); getattr(box, name, None) is the builtin, its meaning (the attribute when '
+                        'the object has one, else the default) is a hypothesis of the theorems; functools.wraps does not change what a call executes',
                         'resolve_percentages / adjust_box_sizing / resolve_one_percentage: the printer specialises a function to constant '
                         'string arguments (getattr / setattr / f-strings with constant names become attribute accesses); calls that mutate '
                         'the box are linked by name to the regenerated specialisation (model/C05ResolveLink.v rlink); '
